@@ -70,6 +70,8 @@ func zigSlot(strip, mag uint32, sign uint32, hi uint32) []byte {
 // ---------------------------------------------------------------------------------------------
 // boundary answers
 
+const rnZig = 3.442619855899 // start of the ziggurat tail (public constant of the Marsaglia-Tsang tables)
+
 var floatAnswers = []uint64{0, 1, 0x1fffffffffffff, 0x10000000000000, 0x1ffffffffffffe, 0xfffffffffffff}
 
 func gaussianAnswersScenario(cfg gaussCfg) engine.Scenario {
@@ -78,8 +80,18 @@ func gaussianAnswersScenario(cfg gaussCfg) engine.Scenario {
 		strip := uint32(c.Choose(128, "strip"))
 		mag := []uint32{0, 1, 0x800000, 0xFFFFFE, 0xFFFFFF}[c.Choose(5, "magnitude")]
 		sign := uint32(c.Choose(2, "sign"))
-		f1 := floatAnswers[c.Choose(len(floatAnswers), "uniform-1")]
+		// answers of the first uniform: fixed extremes, plus (tail of the base strip: norm = rn - ln(u)/rn) the uniforms that
+		// put norm·sigma just below / just above the bound
+		fa := append([]uint64{}, floatAnswers...)
+		for _, d := range []float64{-0.75, -0.25, 0.25, 0.75, 0.99} {
+			u := math.Exp(-((cfg.bound+d)/cfg.sigma - rnZig) * rnZig)
+			fa = append(fa, uint64(u*float64(0x1fffffffffffff)))
+		}
+		f1 := fa[c.Choose(len(fa), "uniform-1")]
 		f2 := floatAnswers[(int(strip)+int(mag))%len(floatAnswers)]
+		if strip == 0 {
+			f2 = 0 // second uniform 0: y = +Inf, the tail candidate is accepted by the ziggurat whatever x
+		}
 		late := int(strip)%3 == 2 // window near the end of the 1024-byte buffer: the slow paths then cross the refill
 		L := len(cfg.ch.mod) - 1
 		level := int(strip) % (L + 1)
